@@ -12,7 +12,7 @@ ORACLE_RULE = ("C10: indicator kind (26, rotating) x random or degenerate stream
 ASSUMPTIONS = ["runs in which the library raises are left to C09", "candles_lifespan is not combined here (C15 owns trimming)",
                "TSI range slack comes from the reference budget and is skipped where the double-smoothed |momentum| is below twice its rounding budget",
                "TZ=UTC"]
-PARTIAL = 'exact ordered field. Proved per call and now for WHOLE RUNS (every candle of every raw stream; _live forms for every append schedule on base / collapsing / gap-filled timeframes): RSI, STOCH, Aroon, ADX in [0,100] (STOCH %K/%D up to their stated budgets), TSI in [-100,100] (exact under RoundNegLe, else with a budget), ATR >= 0, sigma >= 0, Bollinger / Keltner / Donchian ordering and Donchian / HighestLowest enclosure, Supertrend shape, Counter moves; identities (Aroon osc, Donchian middle) per call, MACD histogram also for whole runs. Since round 5 also: all fourteen relations on Heikin-Ashi managers (alone, on a collapsing timeframe, with gap filling), on lifespan managers for every retained candle under the retention hypothesis of C15, and for a late-starting foreign input (None on the first t0 candles) for RSI / STDEV / BBANDS. Open (C10_FULL): inputs for the other kinds, lifespan without retention or combined with a timeframe / Heikin-Ashi, IEEE effects'
+PARTIAL = 'exact ordered field. Proved per call and now for WHOLE RUNS (every candle of every raw stream; _live forms for every append schedule on base / collapsing / gap-filled timeframes): RSI, STOCH, Aroon, ADX in [0,100] (STOCH %K/%D up to their stated budgets), TSI in [-100,100] (exact under RoundNegLe, else with a budget), ATR >= 0, sigma >= 0, Bollinger / Keltner / Donchian ordering and Donchian / HighestLowest enclosure, Supertrend shape, Counter moves; identities (Aroon osc, Donchian middle) per call, MACD histogram, Aroon oscillator and Donchian middle also for whole runs; EVERY stored top-level reading and every helper reading is a fixed point of its own rounding after any run, for every kind, every name and EVERY manager configuration incl. lifespans (rounded_every_cfg, helpers_rounded_every_cfg; Managed _data series are unrounded by design: data_not_rounded); OBV moves by 0 or +-volume for whole runs, exactly when the volumes are on the rounding grid (obv_live_moves_exact). Since round 5 also: all fourteen relations on Heikin-Ashi managers (alone, on a collapsing timeframe, with gap filling), on lifespan managers for every retained candle under the retention hypothesis of C15, and for a late-starting foreign input (None on the first t0 candles) for RSI / STDEV / BBANDS. Open (C10_FULL): inputs for the other kinds, lifespan without retention or combined with a timeframe / Heikin-Ashi, IEEE effects'
 
 
 def oracle(ctx):
